@@ -366,6 +366,7 @@ def run(ctx) -> None:
                   f"{[unparse(c) for c in calls]}", loc=f.loc())
 
     default_calendar_rule(ctx, "R4")
+    shapes.memo_rule(ctx, "R4")
 
     # ---------------------------------------------------------------- R5
     self_pattern_rule(ctx, "R5")
